@@ -144,6 +144,28 @@ DEV_asbuilt  == {"UnsolAbortKeepsWritten", "OverflowKeepsWrittenCount", "EchoUse
 CZ_os        == {"os", "bi"}
 Cl123        == {1, 2, 3}
 
+\* ---- abstract-transition cover (behaviour generation, not verification): with CoverView as VIEW
+\* TLC explores one representative per (abstract state, incoming input kind), so every such pair
+\* reachable within MaxSteps gets a history; ExportAll prints them all
+Cap2(n) == IF n > 2 THEN 2 ELSE n
+CountSt(st, x) == Cap2(Len(SelectSeq(st.events, LAMBDA r : r.st = x)))
+AbsState(st) ==
+    <<st.pc, st.cont, st.unsol, st.enabled = {}, st.notBefore # NoTime /\ st.now < st.notBefore,
+      st.deferred.has, st.last.has, st.last.resp.has /\ st.last.resp.body # <<>>,
+      CountSt(st, "U"), CountSt(st, "S"), CountSt(st, "W"), Cap2(Len(st.selq)), st.ovf, st.isNull,
+      Cap2(IF st.retries < 0 THEN 2 ELSE st.retries), Len(st.inbox), st.lastBc, st.restart,
+      st.select.has, st.select.has /\ st.select.fid + 1 = st.fid,
+      {PCls(st.events[i].p) : i \in 1..Len(st.events)},
+      st.series.fin, st.mlast.k>>
+InKind(h) == IF h = <<>> THEN <<"init">>
+             ELSE LET i == h[Len(h)]
+                  IN <<i.k, Fld(i, "f", ""), Fld(i, "rep", FALSE), Fld(i, "uns", FALSE), Fld(i, "src", "M"),
+                       Fld(i, "dst", "U"), Fld(i, "bad", ""), Fld(i, "ob", ""), Fld(i, "p", 0),
+                       IF i.k = "read" THEN i.hs ELSE <<>>,
+                       IF i.k = "adv" THEN i.dt > 50 ELSE FALSE>>
+CoverView == <<AbsState(s), InKind(hist)>>
+ExportAll == hist = <<>> \/ PrintT(<<"SCENARIO", ToJson(hist)>>)
+
 \* scenario export: every behaviour prefix of length MaxSteps (simulation mode)
 Export == Len(hist) < MaxSteps \/ PrintT(<<"SCENARIO", ToJson(hist)>>)
 =============================================================================
